@@ -190,13 +190,19 @@ def run_harness(prop, h, tier, seed, extra=None):
             res["rc"] = 97; res["log"] += "\nline count mismatch cases=%d impl=%d model=%d" % (len(cases), len(impl), len(model))
             return res
         rules = h.get("canon", [])
+        last_reset = 0
         for i, (c, a, b) in enumerate(zip(cases, impl, model)):
+            if c.endswith(" RESET"):
+                last_reset = i
             if canon(a, rules) != canon(b, rules):
-                res["disagreements"].append({"index": i, "case": c, "impl": a, "model": b})
+                seq = cases[last_reset:i + 1] if h.get("stateful") else [c]
+                res["disagreements"].append({"index": i, "case": c, "impl": a, "model": b, "sequence": seq})
+                if len(res["disagreements"]) >= 50:
+                    break
     for line in open(out + "/oracle.txt").read().splitlines():
         parts = line.split("\t")
         if len(parts) >= 4:
-            res["oracle"].append({"property": parts[0], "class": parts[1], "what": parts[2], "replay_case": parts[3]})
+            res["oracle"].append({"property": parts[0], "class": parts[1], "what": parts[2], "replay_case": parts[3].split(" || ")})
     return res
 
 
@@ -260,7 +266,7 @@ def run_check(prop, tier, seed, replay=None):
             if r["rc"] != 0:
                 tie_breaks.append(("harness-run:" + h["bin"], r["log"][-1500:]))
             for d in r["disagreements"]:
-                tie_breaks.append(("correspondence:%s" % h["bin"], json.dumps(d)[:1500]))
+                tie_breaks.append(("correspondence:%s" % h["bin"], json.dumps(d)))
 
     # property-oracle failures on the implementation = concrete failing inputs
     k = 0
@@ -274,14 +280,14 @@ def run_check(prop, tier, seed, replay=None):
             k += 1
             if k <= 5:
                 path = write_replay(prop, seed, k, {"property": prop, "kind": "oracle-failure", "harness": r["bin"], "what": o["what"],
-                                                    "class": o["class"], "cases": [o["replay_case"]], "seed": seed})
+                                                    "class": o["class"], "cases": o["replay_case"], "seed": seed})
                 violations.append(path)
     if not violations and tie_breaks:
         # a proof / translator / correspondence no longer checks and no failing input was found
         path = write_replay(prop, seed, 0, {"property": prop, "kind": "tie-broken", "no_failing_input_found": True,
                                             "broken": [{"name": n, "detail": d} for n, d in tie_breaks[:10]],
                                             "harness": next((n.split(":")[1] for n, _ in tie_breaks if n.startswith("correspondence:")), None),
-                                            "cases": [json.loads(d)["case"] for n, d in tie_breaks if n.startswith("correspondence:")][:5], "seed": seed})
+                                            "cases": next((json.loads(d)["sequence"] for n, d in tie_breaks if n.startswith("correspondence:")), []), "seed": seed})
         violations.append(path + " no-failing-input-found")
 
     for cls, o in sorted(known_hits.items()):
@@ -302,7 +308,7 @@ def run_check(prop, tier, seed, replay=None):
             "evaluations": sum(s.get("evaluations", 0) for s in stats_all),
             "distinct_nontrivial": sum(s.get("distinct_nontrivial", 0) for s in stats_all),
             "rule": " || ".join(s.get("rule", "") for s in stats_all),
-            "samples": [x for s in stats_all for x in s.get("samples", [])][:8] or ["(proof only)"],
+            "samples": [str(x)[:400] for s in stats_all for x in s.get("samples", [])][:8] or ["(proof only)"],
             "input_distribution": {r["bin"]: r["stats"].get("distribution", {}) for r in runs if r.get("stats")},
             "traces_validated_against_impl": sum(s.get("evaluations", 0) for s in stats_all),
             "correspondence_disagreements": sum(len(r["disagreements"]) for r in runs),
@@ -321,7 +327,7 @@ def run_check(prop, tier, seed, replay=None):
         prop, tier, seed, pr["discharged"], pr["obligations"], ev["coverage"]["evaluations"], ev["coverage"]["correspondence_disagreements"],
         len(known_hits), len(violations), time.time() - t0))
     for n, d in tie_breaks[:6]:
-        print("  broken: %s :: %s" % (n, d.replace("\n", " | ")[:600]))
+        print("  broken: %s :: %s" % (n, d.replace("\n", " | ")[:500]))
     for l in lines:
         print(l)
     return 1 if violations else 0
